@@ -305,7 +305,7 @@ func harnessC16LongChain() {
 	vCover("long-chain")
 }
 
-//verif:entry property=C16 tier=both bounds="bus options: every list of K WithUpcast(from,to) options over 3 names given to New (K_quick=3, K_thorough=4); the resulting registry must be acyclic and equal to what RegisterUpcastFunc would have accepted in that order" cover="built" K_quick=3 K_thorough=4
+//verif:entry property=C16 tier=both bounds="bus options: every list of K WithUpcast(from,to,fn) options over 3 names (fn possibly nil) given to New (K_quick=3, K_thorough=4); the resulting registry must be acyclic and equal to what RegisterUpcastFunc would have accepted in that order" cover="built" K_quick=3 K_thorough=4
 func harnessC16WithUpcastOptions() {
 	K := vParam("K", 3)
 	names := []string{"A", "B", "C"}
@@ -313,6 +313,11 @@ func harnessC16WithUpcastOptions() {
 	var edges []c16Edge
 	for i := 0; i < K; i++ {
 		f, t := names[vPick(3)], names[vPick(3)]
+		if vBool() {
+			// a nil function is refused here as everywhere else
+			opts = append(opts, WithUpcast(f, t, nil))
+			continue
+		}
 		opts = append(opts, WithUpcast(f, t, c16Dummy))
 		if f != t && !c16Reaches(edges, t, f) {
 			edges = append(edges, c16Edge{f, t})
@@ -328,6 +333,11 @@ func harnessC16WithUpcastOptions() {
 	}
 	for _, e := range got {
 		vAssert(!c16Reaches(got, e.t, e.f), "registry-built-from-options-is-acyclic")
+	}
+	for _, l := range bus.upcastRegistry.upcasters {
+		for _, u := range l {
+			vAssert(u.Upcast != nil, "nil-function-never-registered")
+		}
 	}
 	vCover("built")
 }
